@@ -1,0 +1,98 @@
+//! Read-only inspection hooks for external verification tooling. Compiled only
+//! with the `verif-hooks` feature; nothing here mutates the cache.
+
+use crate::LruCache;
+use crate::entry::Entry;
+
+/// One node of the recency list as found in memory.
+pub struct VerifNode<'a, K, V> {
+    pub addr: usize,
+    pub prev: usize,
+    pub next: usize,
+    pub size: usize,
+    pub key: &'a K,
+    pub value: &'a V
+}
+
+/// Scalar state and table geometry.
+#[derive(Clone, Debug, PartialEq, Eq)]
+pub struct VerifGeometry {
+    pub seal: usize,
+    pub seal_prev: usize,
+    pub seal_next: usize,
+    pub current_size: usize,
+    pub max_size: usize,
+    pub len: usize,
+    pub capacity: usize,
+    pub buckets: usize,
+    /// Addresses of all occupied buckets, in table iteration order.
+    pub bucket_addrs: Vec<usize>,
+    /// Number of nodes reached by following `next` from the seal.
+    pub walked: usize,
+    /// Set when a link led outside the set of occupied buckets (and the seal);
+    /// the walk stops there without dereferencing it.
+    pub dangling: Option<usize>,
+    /// Set when the walk did not return to the seal within `len + 1` steps.
+    pub overlong: bool
+}
+
+impl<K, V, S> LruCache<K, V, S> {
+    /// Walks the list from most- to least-recently-used, calling `f` on every
+    /// node, and returns the geometry. A link is only followed if it points to
+    /// an occupied bucket of the table (or the seal).
+    pub fn verif_snapshot<'a, F>(&'a self, mut f: F) -> VerifGeometry
+    where
+        F: FnMut(VerifNode<'a, K, V>)
+    {
+        let bucket_addrs: Vec<usize> = unsafe {
+            self.table.iter().map(|b| b.as_ptr() as usize).collect()
+        };
+        let seal_ref: &Entry<K, V> = self.seal.get();
+        let seal = seal_ref as *const Entry<K, V> as usize;
+        let mut geometry = VerifGeometry {
+            seal,
+            seal_prev: seal_ref.prev.addr(),
+            seal_next: seal_ref.next.addr(),
+            current_size: self.current_size,
+            max_size: self.max_size,
+            len: self.table.len(),
+            capacity: self.table.capacity(),
+            buckets: self.table.buckets(),
+            bucket_addrs,
+            walked: 0,
+            dangling: None,
+            overlong: false
+        };
+        let mut cursor = geometry.seal_next;
+        let limit = geometry.len + 1;
+
+        while cursor != seal {
+            if geometry.walked >= limit {
+                geometry.overlong = true;
+                break;
+            }
+
+            if !geometry.bucket_addrs.contains(&cursor) {
+                geometry.dangling = Some(cursor);
+                break;
+            }
+
+            let entry: &'a Entry<K, V> = unsafe { &*(cursor as *const Entry<K, V>) };
+            let prev = entry.prev.addr();
+            let next = entry.next.addr();
+
+            f(VerifNode {
+                addr: cursor,
+                prev,
+                next,
+                size: entry.size,
+                key: unsafe { entry.key() },
+                value: unsafe { entry.value() }
+            });
+            geometry.walked += 1;
+            cursor = next;
+        }
+
+        geometry
+    }
+}
